@@ -77,6 +77,15 @@ def make_check(f):
             key = path.split(".")[-1].split("[")[0] or path
             raise Violation("mismatch:%s:%s" % (kind, key), {"path": path, "got": g, "want": w, "variant": variant,
                                                               "data": bytes(data[:96]).hex()})
+        # the decoded values are what the device sent at that time: when the data-in buffer is filled again
+        # (same command re-executed, buffer reused) a result obtained earlier does not change with it
+        n_ = len(data)
+        data[:] = (int.from_bytes(data, "big") ^ int.from_bytes(b"\xa5" * n_, "big")).to_bytes(n_, "big")
+        d = respgen.compare(got, want)
+        if d is not None:
+            path, kind, g, w = d
+            key = path.split(".")[-1].split("[")[0] or path
+            raise Violation("mismatch:result_aliases_the_buffer:%s" % key, {"path": path, "got": g, "want": w})
         nd = f.ndesc(v)
         nt = (nd is not None and nd >= 2) or nonzero_fields(v) >= 3
         if variant == "garbage":
